@@ -2,6 +2,7 @@ package builder
 
 import (
 	"fmt"
+	"sort"
 	"strings"
 
 	"github.com/grafana/cog/internal/ast"
@@ -332,7 +333,15 @@ func ComposeBuilders(selector Selector, config CompositionConfig) RewriteRule {
 			composableBuilders[panelType] = append(composableBuilders[panelType], builder)
 		}
 
-		for panelType, buildersForType := range composableBuilders {
+		// To ensure a consistent output
+		panelTypes := make([]string, 0, len(composableBuilders))
+		for panelType := range composableBuilders {
+			panelTypes = append(panelTypes, panelType)
+		}
+		sort.Strings(panelTypes)
+
+		for _, panelType := range panelTypes {
+			buildersForType := composableBuilders[panelType]
 			composedBuilders, err := composeBuilderForType(schemas, builders, config, panelType, sourceBuilder, buildersForType)
 			if err != nil {
 				return nil, fmt.Errorf("could not apply ComposeBuilders builder veneer: %w", err)
